@@ -256,6 +256,21 @@ func runC13Child(o *Out) {
 		cmp("Marshal([]interface{}{v}) = [Marshal(v)]", got, e, append(append([]byte("["), base...), ']'))
 		got, e = c01Safe(func() ([]byte, error) { return gojson.Marshal(c01Wrap{I: arg}) })
 		cmp("Marshal(struct{I interface{}}{v}) = {\"i\":Marshal(v)}", got, e, append(append([]byte(`{"i":`), base...), '}'))
+		// 7. the same value below interface{} members, indented: every line of what lies below an interface (marshaler
+		// results included) carries the indentation of the levels above it
+		for wi, wrapped := range []interface{}{c01Wrap{I: arg}, []interface{}{arg}, map[string]interface{}{"k": []interface{}{arg}}} {
+			wbase, werr := c01Safe(func() ([]byte, error) { return gojson.Marshal(wrapped) })
+			if werr != nil {
+				continue
+			}
+			pi := c13Indents[(ti+wi)%len(c13Indents)]
+			var want bytes.Buffer
+			if stdjson.Indent(&want, wbase, pi[0], pi[1]) != nil {
+				continue
+			}
+			got, e := c01Safe(func() ([]byte, error) { return gojson.MarshalIndent(wrapped, pi[0], pi[1]) })
+			cmp(fmt.Sprintf("MarshalIndent(%q,%q) of the value below interface{} (wrapping %d) = Indent(Marshal)", pi[0], pi[1], wi), got, e, want.Bytes())
+		}
 	}
 }
 
